@@ -1,6 +1,8 @@
 """C04 - modules and hierarchy mirror the scanned directory tree, named from root_path."""
 from __future__ import annotations
 
+import re
+
 import types
 from itertools import product
 
@@ -88,6 +90,41 @@ def check_case(spec: dict) -> dict:
             obj = ("ok", snapshot(ev_obj))
         except Exception as e:  # noqa: BLE001
             obj = ("error", f"{type(e).__name__}: {e}")
+    # the two entry points (and the positional form of the path entry point, in the documented parameter order) under the
+    # same options: every option has to arrive where it belongs
+    opt_diffs = []
+    if spec.get("entry_opts"):
+        files_x = dict(files)
+        for i, f in enumerate(sorted(spec["pyfiles"])[:3]):
+            files_x[f] = files_x[f] + ["import extlib.sub.leaf\n", "import otherlib\nimport extlib.sub\n", "from extlib import thing\n"][i % 3]
+        with Project(root, files_x, spec["dirs"]) as prx:
+            def package_object_x(name, rel):
+                m = types.ModuleType(name)
+                init = (rel + "/" if rel else "") + "__init__.py"
+                m.__path__ = [prx.path(rel) if rel else prx.path()]
+                m.__file__ = prx.path(init) if init in spec["pyfiles"] else None
+                return m
+
+            order = ("exclusions", "exclude_external_libraries", "level_limit", "regex_exclusions", "external_exclusions", "regex_external_exclusions")
+            defaults = {"exclusions": None, "exclude_external_libraries": True, "level_limit": None, "regex_exclusions": None,
+                        "external_exclusions": None, "regex_external_exclusions": None}
+            for opts in spec["entry_opts"]:
+                kw = {k: (tuple(v) if isinstance(v, list) else v) for k, v in opts.items()}
+                by_path = scan_outcome(prx.path(), prx.path(sub_rel) if sub_rel else prx.path(), **kw)
+                try:
+                    by_obj = ("ok", snapshot(get_evaluable_architecture_for_module_objects(package_object_x("rootmod", ""), package_object_x("submod", sub_rel), **kw)))
+                except Exception as e:  # noqa: BLE001
+                    by_obj = ("error", f"{type(e).__name__}: {e}")
+                try:
+                    from pytestarch import get_evaluable_architecture as gea
+                    positional = ("ok", snapshot(gea(prx.path(), prx.path(sub_rel) if sub_rel else prx.path(), *[kw.get(k, defaults[k]) for k in order])))
+                except Exception as e:  # noqa: BLE001
+                    positional = ("error", f"{type(e).__name__}: {e}")
+                ref = (by_path[0], by_path[1] if by_path[0] == "ok" else by_path[1].split(":")[0])
+                for name, got in (("module-object entry point", by_obj), ("positional arguments in the documented order", positional)):
+                    g = (got[0], got[1] if got[0] == "ok" else got[1].split(":")[0])
+                    if g != ref:
+                        opt_diffs.append((name, opts, got[1] if got[0] != "ok" else sorted(got[1][0])[:8], by_path[1] if by_path[0] != "ok" else sorted(by_path[1][0])[:8]))
     # second rendering: imports relative to module_path's parent directory
     alt = alt3 = None
     if sub_rel:
@@ -166,6 +203,8 @@ def check_case(spec: dict) -> dict:
             v("relative-from-imports-differ/sub-scan", f"module_path={sub}: relative from-imports give {rel_part[1] if rel_part[0] != 'ok' else sorted(PS.drop_ancestor_imports(rel_part[1][1]))}, "
               f"'import <full name>' gives {sorted(PS.drop_ancestor_imports(part[1][1]))}")
 
+    for name, opts, got, want in opt_diffs:
+        v("entry-points-differ-under-options", f"{name} with {opts}: {got} instead of {want} (keyword call of the path entry point)")
     if full[0] != "ok":
         v("scan-error", full[1])
     else:
@@ -244,7 +283,33 @@ def cases(draw):
     mods = sorted(m for m in PS.tree_modules(tree) if all(p.isidentifier() for p in m.split(".")))
     if len(mods) >= 3:
         tree["rules"] = [draw(RS.unrelated_rule(mods, max_s=2, max_o=2)) for _ in range(draw(st.integers(1, 3)))]
+    if draw(st.integers(0, 2)) == 0:
+        tree["entry_opts"] = draw(st.lists(entry_options(tree), min_size=1, max_size=3))
     return tree
+
+
+@st.composite
+def entry_options(draw, tree):
+    """One valid combination of the six options of the entry points, each chosen so that it has an observable effect."""
+    fname = draw(st.sampled_from(tree["pyfiles"])).rsplit("/", 1)[-1]
+    opts = {}
+    k = draw(st.integers(0, 4))
+    if k == 1:
+        opts["exclusions"] = ["*" + fname]
+    elif k == 2:
+        opts["regex_exclusions"] = [".*/" + re.escape(fname) + "$"]
+    elif k == 3:
+        opts["exclusions"] = []
+    if draw(st.booleans()):
+        opts["level_limit"] = draw(st.integers(0, 3))
+    if draw(st.booleans()):
+        opts["exclude_external_libraries"] = False
+        e = draw(st.integers(0, 3))
+        if e == 1:
+            opts["external_exclusions"] = [draw(st.sampled_from(["extlib*", "otherlib", "extlib.sub.leaf"]))]
+        elif e == 2:
+            opts["regex_external_exclusions"] = [draw(st.sampled_from(["extlib\\.sub$", "other.*", "extlib"]))]
+    return opts
 
 
 def strategy(tier):
